@@ -1,6 +1,8 @@
 package chainsim
 
 import (
+	"runtime/debug"
+	"strings"
 	"fmt"
 	"testing"
 	"testing/synctest"
@@ -30,7 +32,7 @@ func guarded(f func() error) (err error) {
 			if s := fmt.Sprint(r); len(s) >= 8 && s[:8] == "deadlock" {
 				panic(r)
 			}
-			err = fmt.Errorf("panic: %v", r)
+			err = fmt.Errorf("panic: %v\n%s", r, trimStack(debug.Stack()))
 		}
 	}()
 	return f()
@@ -241,4 +243,20 @@ func TestC11(t *testing.T) {
 			}
 		}
 	})
+}
+
+// trimStack keeps the frames of a panic's stack that lie in the repository under test.
+func trimStack(b []byte) string {
+	var keep []string
+	lines := strings.Split(string(b), "\n")
+	for i := 0; i+1 < len(lines); i++ {
+		if strings.Contains(lines[i+1], "/repo/") || strings.Contains(lines[i+1], "go-quai") {
+			keep = append(keep, strings.TrimSpace(lines[i])+" @ "+strings.TrimSpace(lines[i+1]))
+			i++
+		}
+		if len(keep) >= 8 {
+			break
+		}
+	}
+	return strings.Join(keep, "\n")
 }
